@@ -42,9 +42,16 @@ def l2_quadrature(run, rng, quick):
     for _ in range(25 if quick else 250):
         nsite = int(rng.integers(3, 8))
         spec = lc.random_model_spec(rng, nsite, qn_size=1 if rng.random() < 0.7 else 2, max_d=3, neutral=bool(rng.random() < 0.4))
+        zero_sector = bool(rng.random() < 0.3)
+        if zero_sector:
+            # signed charges, total charge zero: several populated sectors per bond although qntot == 0
+            # (the case in which a skipped global sort of the block spectra goes unnoticed by the suite)
+            nsite = int(rng.integers(4, 8))
+            spec = [dict(kind="hs", d=2, sigmaqn=[[1], [-1]]) for _ in range(nsite)]
         model = lc.build_model(spec)
         kind = str(rng.choice(["mps", "mps", "mpdm"]))
-        mp = lc.random_chain(rng, model, kind, max_bond=8, p_one=0.0, cplx=bool(rng.random() < 0.5), p_dead=0.0)
+        mp = lc.random_chain(rng, model, kind, max_bond=8, p_one=0.0, cplx=bool(rng.random() < 0.5), p_dead=0.0,
+                             **(dict(qntot=(0,)) if zero_sector and kind == "mps" else {}))
         if mp is None:
             continue
         try:
@@ -74,6 +81,8 @@ def l2_quadrature(run, rng, quick):
         n0 = float(np.linalg.norm(psi0)) ** 2
         d2 = float(np.linalg.norm(psi0 - psi1)) ** 2
         loc = list(rec)
+        if zero_sector:
+            run.count("quadrature:signed-charges-zero-total")
         run.count(f"quadrature:{kind}:truncating={sum(1 for x in loc if x > 1e-14 * n0)}")
         tol = 1e-9 * max(n0, 1e-300)
         case = dict(kind=kind, chain=lc.dump_chain(mp), max_bonddim=m, local_discarded_weights=loc, squared_distance=d2, squared_norm=n0)
